@@ -56,10 +56,14 @@ Record gent := {
   g_conflicted : bool             (* is_conflicted *)
 }.
 Definition g_latest (e : gent) : bool := g_lfresh e && g_rfresh e.      (* SyncEntry.is_latest() *)
-Record gworld := {                (* what the LOCAL provider holds right now *)
-  w_lpaths : list path;           (* exists_path *)
-  w_loids : list N;               (* exists_oid *)
-  w_lhash : list (N * N)          (* oid -> current hash (info_oid().hash) *)
+Record rinfo := {                 (* providers[REMOTE].info_oid(oid) *)
+  r_oid : N; r_path : path; r_hash : option N; r_isdir : bool; r_size : N; r_mtime : N
+}.
+Record gworld := {                (* what the providers hold right now *)
+  w_lpaths : list path;           (* LOCAL exists_path *)
+  w_loids : list N;               (* LOCAL exists_oid *)
+  w_lhash : list (N * N);         (* LOCAL oid -> current hash (info_oid().hash) *)
+  w_robjs : list rinfo            (* REMOTE objects by oid (only read when a request by id has to fill a path in) *)
 }.
 Record gst := {
   g_ents : list gent;
@@ -106,8 +110,9 @@ Definition opt_n_eqb (a b : option N) : bool :=
   | _, _ => false
   end.
 
-(* SmartSyncState._smart_sync_ent: a local path that no longer exists makes the entry look new on the remote side *)
-Definition g_state_request (w : gworld) (st : gst) (e : gent) : gst :=
+(* SmartSyncState._smart_sync_ent: a local path that no longer exists makes the entry look new on the remote side.
+   [_legacy] = the code before repair 2277c0d, which registered folders too *)
+Definition g_state_request_legacy (w : gworld) (st : gst) (e : gent) : gst :=
   let stale := match g_path (g_loc e) with Some p => negb (pmem p (w_lpaths w)) | None => false end in
   let e' := if stale then
               {| g_key := g_key e; g_loc := cleared;
@@ -128,6 +133,9 @@ Definition g_state_request (w : gworld) (st : gst) (e : gent) : gst :=
                     else g_changeset st;
      g_req := kadd (g_key e) (g_req st);
      g_exc := kdel (g_key e) (g_exc st) |}.
+(* repaired (2277c0d): folders are always mirrored, a request of a folder registers nothing *)
+Definition g_state_request (w : gworld) (st : gst) (e : gent) : gst :=
+  if g_dir e then st else g_state_request_legacy w st e.
 
 Section Gate.
 Variable auto : path -> bool.
@@ -199,16 +207,16 @@ Fixpoint parent_conflicts_from (fuel : nat) (st : gst) (cur : gent) (acc : list 
   end.
 Definition request_plan (st : gst) (e : gent) : list N :=
   parent_conflicts_from (S (length (g_ents st))) st e [] ++ [g_key e].
-(* the whole request: state part, then the entry is marked changed on the remote side and pushed through the
+(* the whole request: state part [sr], then the entry is marked changed on the remote side and pushed through the
    gate + sync step after its parents *)
-Definition g_request (w : gworld) (st : gst) (e : gent) : gst * option (list N) :=
-  let st1 := g_state_request w st e in
+Definition g_request_core (sr : gworld -> gst -> gent -> gst) (w : gworld) (st : gst) (e : gent) : gst * option (list N) :=
+  let st1 := sr w st e in
   match find_ent (g_ents st1) (g_key e) with
   | Some e1 =>
     match g_path (g_rem e1) with
     | None =>
-      (* request by id of an entry whose remote path has not been filled in yet: get_parent_conflicts calls
-         provider.dirname(None) and the call raises AttributeError AFTER the state-level request took effect *)
+      (* the remote path is unknown: get_parent_conflicts calls provider.dirname(None) and the call raises
+         AttributeError AFTER the state-level request took effect *)
       (st1, None)
     | Some _ =>
       let mine := has_oid (g_rem e1) in
@@ -225,6 +233,67 @@ Definition g_request (w : gworld) (st : gst) (e : gent) : gst * option (list N) 
     end
   | None => (st1, Some [])
   end.
+(* the code before the repairs fc0a567 / 2277c0d (kept for the refutations in PropC20.v) *)
+Definition g_request_legacy (w : gworld) (st : gst) (e : gent) : gst * option (list N) :=
+  g_request_core g_state_request_legacy w st e.
+
+(* SyncState.unconditionally_get_latest(ent, REMOTE) for an id-stable provider *)
+Definition find_robj (w : gworld) (o : N) : option rinfo := find (fun x => N.eqb (r_oid x) o) (w_robjs w).
+Definition remote_newly_changed (w : gworld) (e : gent) : bool :=
+  let r := g_rem e in
+  match g_oid r with
+  | Some o =>
+    match find_robj w o with
+    | Some i => (negb (opt_n_eqb (g_hash r) (r_hash i)) || negb (opt_path_eqb (g_path r) (Some (r_path i))))
+                && negb (g_changed r) && negb (g_discarded e) && negb (g_conflicted e)
+    | None => false
+    end
+  | None => false
+  end.
+Definition g_refresh_remote (w : gworld) (e : gent) : gent :=
+  let r := g_rem e in
+  match g_oid r with
+  | None =>
+    {| g_key := g_key e; g_loc := g_loc e;
+       g_rem := {| g_oid := None; g_path := g_path r; g_changed := g_changed r;
+                   g_exists := if ex_gone (g_exists r) then g_exists r else XUnknown;
+                   g_hash := g_hash r; g_sync_hash := g_sync_hash r; g_sync_path := g_sync_path r;
+                   g_size := g_size r; g_mtime := g_mtime r |};
+       g_dir := g_dir e; g_lfresh := g_lfresh e; g_rfresh := g_rfresh e; g_discarded := g_discarded e;
+       g_conflicted := g_conflicted e |}
+  | Some o =>
+    match find_robj w o with
+    | Some i =>
+      {| g_key := g_key e; g_loc := g_loc e;
+         g_rem := {| g_oid := Some o; g_path := Some (r_path i); g_changed := g_changed r || remote_newly_changed w e;
+                     g_exists := match g_exists r with XCorrupt => XCorrupt | _ => XExists end;
+                     g_hash := r_hash i; g_sync_hash := g_sync_hash r; g_sync_path := g_sync_path r;
+                     g_size := r_size i; g_mtime := r_mtime i |};
+         g_dir := r_isdir i; g_lfresh := g_lfresh e; g_rfresh := g_rfresh e && negb (remote_newly_changed w e);
+         g_discarded := g_discarded e; g_conflicted := g_conflicted e |}
+    | None =>
+      {| g_key := g_key e; g_loc := g_loc e;
+         g_rem := {| g_oid := Some o; g_path := g_path r; g_changed := g_changed r;
+                     g_exists := match g_exists r with XCorrupt => XCorrupt | _ => XTrashed end;
+                     g_hash := g_hash r; g_sync_hash := g_sync_hash r; g_sync_path := g_sync_path r;
+                     g_size := match g_exists r with XCorrupt => g_size r | _ => 0 end;
+                     g_mtime := match g_exists r with XCorrupt => g_mtime r | _ => 0 end |};
+         g_dir := g_dir e; g_lfresh := g_lfresh e; g_rfresh := g_rfresh e; g_discarded := g_discarded e;
+         g_conflicted := g_conflicted e |}
+    end
+  end.
+(* repaired (fc0a567): a request by id first fills in a remote path that is not known yet *)
+Definition needs_fill (by_oid : bool) (e : gent) : bool := by_oid && isnone (g_path (g_rem e)).
+Definition fill_remote (by_oid : bool) (w : gworld) (st : gst) (e : gent) : gst * gent :=
+  if needs_fill by_oid e then
+    let e0 := g_refresh_remote w e in
+    ({| g_ents := put_ent (g_ents st) e0;
+        g_changeset := if remote_newly_changed w e then kadd (g_key e) (g_changeset st) else g_changeset st;
+        g_req := g_req st; g_exc := g_exc st |}, e0)
+  else (st, e).
+Definition g_request (by_oid : bool) (w : gworld) (st : gst) (e : gent) : gst * option (list N) :=
+  let (st0, e0) := fill_remote by_oid w st e in
+  g_request_core g_state_request w st0 e0.
 
 (* ---- un-request (SmartCloudSync._smart_unsync_ent then SmartSyncState._smart_unsync_ent) *)
 Inductive gact :=
@@ -661,12 +730,21 @@ Definition sx_gent (e : gent) : sx :=
   L [A (g_key e); sx_gside (g_loc e); sx_gside (g_rem e); sx_bool (g_dir e); sx_bool (g_lfresh e); sx_bool (g_rfresh e);
      sx_bool (g_discarded e); sx_bool (g_conflicted e)].
 Definition un_pair (x : sx) : option (N * N) := match x with L [A a; A b] => Some (a, b) | _ => None end.
+Definition un_rinfo (x : sx) : option rinfo :=
+  match x with
+  | L [A o; p; h; d; A sz; A mt] =>
+    match un_path p, un_opt un_atom h, un_bool d with
+    | Some p, Some h, Some d => Some {| r_oid := o; r_path := p; r_hash := h; r_isdir := d; r_size := sz; r_mtime := mt |}
+    | _, _, _ => None
+    end
+  | _ => None
+  end.
 Definition un_gworld (x : sx) : option gworld :=
   match x with
-  | L [ps; os; hs] =>
-    match un_list un_path ps, un_list un_atom os, un_list un_pair hs with
-    | Some ps, Some os, Some hs => Some {| w_lpaths := ps; w_loids := os; w_lhash := hs |}
-    | _, _, _ => None
+  | L [ps; os; hs; rs] =>
+    match un_list un_path ps, un_list un_atom os, un_list un_pair hs, un_list un_rinfo rs with
+    | Some ps, Some os, Some hs, Some rs => Some {| w_lpaths := ps; w_loids := os; w_lhash := hs; w_robjs := rs |}
+    | _, _, _, _ => None
     end
   | _ => None
   end.
@@ -769,7 +847,8 @@ Definition un_mcfg (x : sx) : option mcfg :=
 
 (* requests:
    (0 auto world st)            -> (offered-keys st' ((key pre_sync)...) (reaches-sync keys))   filter + gate on the result
-   (2 world st key)             -> (st' (plan-keys) | ())                                      request; () = the call raises
+   (2 world st key by_oid legacy) -> (st' (plan-keys) | ())                                    request; () = the call raises;
+                                                                      legacy = 1: the code before fc0a567 / 2277c0d
    (3 auto (acts|(10) ...))     -> (report ...) | ((0) index)                                  spec; (10) = report here
    (4 auto cfg L R (obs ...))   -> () | (index code)                                           monitor
    (5 world st key by_path)     -> (st' (acts...))                                             un-request
@@ -785,14 +864,15 @@ Definition run (x : sx) : sx :=
          sx_keys (filter (reaches_sync (auto_of a) w st) (map g_key (g_ents st)))]
     | _, _, _ => sx_malformed
     end
-  | L [A 2%N; w; st; A k] =>
-    match un_gworld w, un_gst st with
-    | Some w, Some st =>
+  | L [A 2%N; w; st; A k; bo; lg] =>
+    match un_gworld w, un_gst st, un_bool bo, un_bool lg with
+    | Some w, Some st, Some bo, Some lg =>
       match find_ent (g_ents st) k with
-      | Some e => let (st', plan) := g_request w st e in L [sx_gst st'; sx_opt sx_keys plan]
+      | Some e => let (st', plan) := if lg then g_request_legacy w st e else g_request bo w st e in
+                  L [sx_gst st'; sx_opt sx_keys plan]
       | None => sx_malformed
       end
-    | _, _ => sx_malformed
+    | _, _, _, _ => sx_malformed
     end
   | L [A 3%N; a; L acts] =>
     match un_autospec a, un_all un_sreq acts with
